@@ -18,6 +18,7 @@ import Driver.C17
 import Driver.C18
 import Driver.C19
 import Driver.C20
+import Driver.Sys
 import Driver.Util
 
 def protos : List (String × Driver.Proto) :=
@@ -40,7 +41,8 @@ def protos : List (String × Driver.Proto) :=
    ("C17", Driver.C17.proto),
    ("C18", Driver.C18.proto),
    ("C19", Driver.C19.proto),
-   ("C20", Driver.C20.proto)]
+   ("C20", Driver.C20.proto),
+   ("SYS", Driver.Sys.proto)]
 
 def main (args : List String) : IO UInt32 := do
   let inp ← IO.getStdin
